@@ -9,6 +9,11 @@ PLAIN_CLASSES = {
         ("_idle_timeout", "float"),
         ("_active_run_ids", "set[str]"),
         ("_decorated", "opaque:Runtime"),
+        ("_persistence", "opaque:Persistence"),
+    ],
+    "IdleReleaseExternalRunAdapter": [
+        ("_runtime", "IdleReleaseDecorator"),
+        ("_run_id", "str"),
     ],
     "_IdleReleaseInternalRunAdapter": [
         ("_decorated", "opaque:InternalRunAdapter"),
@@ -19,6 +24,7 @@ PLAIN_CLASSES = {
 
 OPAQUE_ATTRS = {
     ("InternalRunAdapter", "run_id"): "str",
+    ("Replayed", "context"): "opaque:Context",
 }
 
 FIELD_TYPES = {
@@ -34,7 +40,18 @@ OPAQUE_METHODS = {
     ("InternalRunAdapter", "write_to_event_stream"): dict(ret="None", pure=False, log=True),
     ("IdleRuntime", "_spawn_task"): dict(ret="opaque:Task", pure=False, log=True),
     ("IdleRuntime", "_deferred_release"): dict(ret="opaque:Coroutine", pure=True),
+    # reload path: the persistence decorator hands out the registered workflow and the replayed context
+    ("Persistence", "get_tracked_workflow"): dict(ret="opaque:WorkflowObj | None", pure=True),
+    ("Persistence", "context_from_ticks"): dict(ret="opaque:Replayed | None", pure=False, may_raise=True),
+    ("WorkflowObj", "run"): dict(ret="opaque:WorkflowHandler", pure=False, log=True, may_raise=True),
+    ("Runtime", "get_external_adapter"): dict(ret="opaque:ExternalRunAdapter", pure=True),
+    ("ExternalRunAdapter", "send_event"): dict(ret="None", pure=False, log=True, may_raise=True),
 }
+
+# calls of this contracted method are recorded in the ghost call log of its callers
+LOGGED_FUNCTIONS = [
+    "llama_agents.server._runtime.idle_release_runtime.IdleReleaseDecorator._ensure_active_run_locked",
+]
 
 MODULE_FNS = {
     # the clock is read once per section: modelled as one value
@@ -130,5 +147,82 @@ class IdleMark:
             and (
                 (not idle)
                 or same(call_pos(self._runtime, "_spawn_task", 0, 0), self._runtime._deferred_release(self._decorated.run_id))
+            )
+        )
+
+
+@contract("llama_agents.server._runtime.idle_release_runtime.IdleReleaseDecorator._ensure_active_run_locked")
+class EnsureActiveRun:
+    properties = ["C36", "C14"]
+    modifies = ["self"]
+    raises = ["ValueError", "*user"]
+
+    def requires(self, run_id):
+        return True
+
+    def ensures_reload_exactly_when_released(old, self, run_id, result):
+        # C36: a run that is still in memory is left alone (nothing is started, nothing is written); a released run
+        # is started again exactly once - under its own run id, from what the persistence layer replays - becomes
+        # active, and its idle mark is cleared; no other run's membership changes
+        return (
+            (
+                same(self, old.self)
+                and tcalls("WorkflowObj", "run") == 0
+                and tcalls("AbstractWorkflowStore", "update_handler_status") == 0
+            )
+            if run_id in old.self._active_run_ids
+            else (
+                run_id in self._active_run_ids
+                and forall_of("str", lambda k: k == run_id or (k in self._active_run_ids) == (k in old.self._active_run_ids))
+                and (
+                    False
+                    if tcalls("WorkflowObj", "run") != 1 or tcalls("AbstractWorkflowStore", "update_handler_status") != 1
+                    else call_kw(tcall_recv("WorkflowObj", "run", 0), "run", 0, "run_id") == run_id
+                    and same(tcall_recv("AbstractWorkflowStore", "update_handler_status", 0), self._store)
+                    and tcall_pos("AbstractWorkflowStore", "update_handler_status", 0, 0) == run_id
+                )
+            )
+        )
+
+    def raised_ValueError(old, self, run_id, exc):
+        # the handler row or the workflow is missing: nothing was started and the run stays released
+        return same(self._active_run_ids, old.self._active_run_ids) and tcalls("WorkflowObj", "run") == 0
+
+
+@contract("llama_agents.server._runtime.idle_release_runtime.IdleReleaseExternalRunAdapter.send_event#with1")
+class ExternalSendEvent:
+    properties = ["C36", "C14"]
+    param_types = {"tick": "WorkflowTick"}
+    modifies = ["self"]
+    raises = ["ValueError", "*user"]
+    notes = ("the body of `async with self._runtime._reload_lock(self.run_id)`, extracted mechanically: it runs with the "
+             "run's reload lock held, so a deferred release cannot interleave with it")
+
+    def requires(self, tick):
+        return True
+
+    def ensures_activity_clears_the_idle_mark(old, self, tick, result):
+        # C36 / C14: an event for a run that is still in memory clears its idle mark (one store write, idle_since =
+        # None) so that the release timer armed at the last idle announcement finds the run busy; an event for a
+        # released run reloads it (which clears the mark itself); either way the event is then forwarded, once
+        return (
+            fcalls("_ensure_active_run_locked") == (0 if old.self._run_id in old.self._runtime._active_run_ids else 1)
+            and tcalls("AbstractWorkflowStore", "update_handler_status")
+            == (1 if old.self._run_id in old.self._runtime._active_run_ids else 0)
+            and (
+                tcalls("AbstractWorkflowStore", "update_handler_status") == 0
+                or (
+                    same(tcall_recv("AbstractWorkflowStore", "update_handler_status", 0), old.self._runtime._store)
+                    and tcall_pos("AbstractWorkflowStore", "update_handler_status", 0, 0) == old.self._run_id
+                    and call_kw(tcall_recv("AbstractWorkflowStore", "update_handler_status", 0),
+                                "update_handler_status", 0, "idle_since") is None
+                )
+            )
+            and (
+                False
+                if tcalls("ExternalRunAdapter", "send_event") != 1
+                else same(tcall_pos("ExternalRunAdapter", "send_event", 0, 0), tick)
+                and same(tcall_recv("ExternalRunAdapter", "send_event", 0),
+                         self._runtime._decorated.get_external_adapter(self._run_id))
             )
         )
